@@ -560,6 +560,21 @@ func (cl *cluster) enabled() []string {
 			if cl.task != nil && !cl.task.done && (c.MaxRestarts == 0 || cl.nRestart < c.MaxRestarts) {
 				out = append(out, "Kill")
 			}
+		case "DelSnap":
+			if len(v.Backends) == 0 || (c.MaxFaults > 0 && cl.nDeletes >= 3) {
+				continue
+			}
+			seen := map[string]bool{}
+			for _, b := range v.Backends {
+				for _, s := range cl.nodes[nodeOf(b.Address)].View().Chain {
+					n := strings.TrimSuffix(strings.TrimPrefix(s, "volume-snap-"), ".img")
+					if strings.HasPrefix(n, "u") && len(n) <= 3 && !seen[n] {
+						seen[n] = true
+						out = append(out, "DelSnap:"+n)
+					}
+				}
+			}
+			out = append(out, "DelSnap:cp", "DelSnap:nosuch")
 		case "Break":
 			for i := range attached {
 				if !cl.stickyREST[fmt.Sprintf("%d/setcheckpoint", i)] && faultsLeft(1) {
